@@ -25,8 +25,12 @@ def fxk(v):
   return int(round(float(v) * KDEN))
 
 
-def pwl_events(tf, tfl, ctx, kp, cyclic, K, X, mode, rng):
-  """K: (rows, units), X: (batch,) grid. mode selects input shape / missing handling."""
+def pwl_events(tf, tfl, ctx, kp, cyclic, K, X, mode, rng, xscale=1.0):
+  """K: (rows, units), X: (batch,) grid. mode selects input shape / missing handling. xscale (a power of two)
+  rescales the input axis: keypoints and inputs are multiplied by it, the function values must not change."""
+  kp = [float(v) * xscale for v in kp]
+  X = np.asarray(X, dtype=np.float64) * xscale
+  xden = XDEN / xscale
   units = K.shape[1]
   kw = {}
   missing_x = None
@@ -79,8 +83,8 @@ def pwl_events(tf, tfl, ctx, kp, cyclic, K, X, mode, rng):
       if not common.all_finite([out[r, u]]):
         evs.append({"ev": "NonFinite", "site": SITE, "call": call})
         continue
-      evs.append({"ev": "Pwl", "kp": kpr, "cyclic": cyclic, "kden": KDEN, "k": kints, "xden": XDEN,
-                  "x": int(round(xv * XDEN)), "missing": m, "mo": fxk(MO[u]), "oden": ODEN,
+      evs.append({"ev": "Pwl", "kp": kpr, "cyclic": cyclic, "kden": KDEN, "k": kints, "xden": int(xden) if xden >= 1 else 1,
+                  "x": int(round(xv * xden)) if xden >= 1 else int(round(xv)), "missing": m, "mo": fxk(MO[u]), "oden": ODEN,
                   "out": int(round(float(out[r, u]) * ODEN)), "tolu": 6, "site": SITE, "call": call})
   # reported keypoints
   ko = layer.keypoints_outputs().numpy()
@@ -89,7 +93,8 @@ def pwl_events(tf, tfl, ctx, kp, cyclic, K, X, mode, rng):
     evs.append({"ev": "KpOut", "kp": kpr, "cyclic": cyclic, "kden": KDEN, "k": [fxk(v) for v in K[:, u]], "oden": ODEN,
                 "outs": [int(round(float(v) * ODEN)) for v in ko[:, u]], "tolu": 6, "site": SITE,
                 "call": {"kp": [float(v) for v in kp], "k": [float(v) for v in K[:, u]], "mode": "keypoints_outputs"}})
-    evs.append({"ev": "KpIn", "kp": kpr, "xden": XDEN, "ins": [int(round(float(v) * XDEN)) for v in ki[:, u]],
+    evs.append({"ev": "KpIn", "kp": kpr, "xden": int(xden) if xden >= 1 else 1,
+                "ins": [int(round(float(v) * xden)) if xden >= 1 else int(round(float(v))) for v in ki[:, u]],
                 "site": SITE, "call": {"kp": [float(v) for v in kp], "mode": "keypoints_inputs"}})
   ctx.count(units * len(X))
   return evs
@@ -200,6 +205,18 @@ def run(ctx):
           except Exception as ex:  # pylint: disable=broad-except
             events.append({"ev": "Raised", "site": SITE, "exc": repr(ex)[:300],
                            "call": {"kp": kp, "cyclic": cyclic, "mode": mode}})
+  # the same function on a rescaled input axis (keypoint spacings of 2^-26 and 2^20 instead of 1..3): the layer
+  # divides by the segment lengths, so absolute thresholds on them would show here
+  for xscale in (2.0 ** -26, 2.0 ** 20):
+    for kp, cyclic in (([0, 1, 3, 4], False), ([0, 2, 3], True), ([1, 2, 4, 5, 8], False)):
+      nk = len(kp) - (1 if cyclic else 0)
+      K = (rng.integers(-32, 33, size=(nk, 2)) / 16.0).astype(np.float32)
+      xg = np.array(sorted({v for k0 in kp for v in (k0, k0 + 0.5, k0 - 0.25)} | {kp[0] - 3.0, kp[-1] + 2.0}))
+      try:
+        events += pwl_events(tf, tfl, ctx, kp, cyclic, K, xg, "single", rng, xscale=xscale)
+        ctx.nontrivial.add((str(kp), cyclic, "xscale", xscale))
+      except Exception as ex:  # pylint: disable=broad-except
+        events.append({"ev": "Raised", "site": SITE, "exc": repr(ex)[:300], "call": {"kp": kp, "cyclic": cyclic, "xscale": xscale}})
   log("  %d PWL events" % len(events))
   ctx.sample({k: events[len(events) // 2].get(k) for k in ("ev", "kp", "cyclic", "k", "x", "missing", "out", "oden")})
   cevents = []
